@@ -149,7 +149,9 @@ func genP(t *rapid.T, label string) exact.P {
 
 // genScale draws the power of two every lattice ordinate is multiplied by.  All the arithmetic the
 // predicates need stays exact under such a scaling (no overflow or underflow for |s| <= 100), so the
-// answers must not change: an absolute tolerance hidden in a kernel shows at the far scales.
+// answers must not change: an absolute tolerance hidden in a kernel shows at the far scales, and so does a
+// product of two cross products (it leaves the normal range from about 2^±260 on, while one cross product is
+// still exact up to about 2^±500).
 func genScale(t *rapid.T) int {
 	switch rapid.IntRange(0, 5).Draw(t, "scale_m") {
 	case 0:
@@ -202,7 +204,7 @@ func genFarAway(t *rapid.T, scale int) func(exact.P) exact.P {
 	return func(p exact.P) exact.P { return exact.P{X: p.X + tx, Y: p.Y + ty} }
 }
 
-var farScales = []int{-100, -60, -40, -30, -24, -20, -16, 16, 20, 30, 40, 60, 100}
+var farScales = []int{-470, -400, -300, -272, -200, -150, -100, -60, -40, -30, -24, -20, -16, 16, 20, 30, 40, 60, 100, 150, 200, 300, 400, 470}
 
 // genPointOnLine draws a lattice point on the line through s (possibly outside the segment).
 func genPointOnLine(t *rapid.T, s exact.Seg, label string) exact.P {
